@@ -374,6 +374,11 @@ class RadiRouter:
     def _add(self, rule, methods, handler, name=None, *, meta=None, overwrite=False):
         route = Route(rule)
         route_ = self._match(route.pattern, route.filters)
+        if name and not overwrite:
+            # refuse before anything is changed
+            registered = self.named_routes.get(name)
+            if registered and registered is not route_:
+                raise RouteBuildError(f'Can`t register route, name `{name}` is already used')
         if route_:
             route = route_
         else:
